@@ -268,7 +268,16 @@ impl Number {
         }
     }
 
+    /// Integer-valued rationals take part in integer division as the fixnums they are
+    fn integer_as_fixnum(&self) -> Number {
+        match self {
+            Number::Rational(num) if num.is_integer() => Number::Fixnum(*num.numer() as i64),
+            _ => self.clone(),
+        }
+    }
+
     pub fn modulo(&self, rhs: &Number) -> Option<Number> {
+        let rhs = &rhs.integer_as_fixnum();
         match self % rhs {
             Some(num) => &(&num + rhs) % rhs,
             None => None,
@@ -840,9 +849,13 @@ impl Number {
     /// we define quotient over all floats with the expectation that the caller can check the
     /// inputs for strict conformance.
     pub fn quotient(&self, rhs: &Self) -> Option<Number> {
-        match self {
+        let (lhs, rhs) = (&self.integer_as_fixnum(), &rhs.integer_as_fixnum());
+        match lhs {
             Number::Fixnum(lhs) => match rhs {
-                Number::Fixnum(rhs) => Some((lhs / rhs).into()),
+                Number::Fixnum(rhs) => match lhs.checked_div(rhs) {
+                    Some(num) => Some(num.into()),
+                    None => Some((BigInt::from(*lhs) / rhs).into()),
+                },
                 Number::BigInt(rhs) => Some((BigInt::from(*lhs) / &**rhs).into()),
                 Number::Float(rhs) => lhs.to_f64().map(|lhs| (lhs / rhs).trunc().into()),
                 Number::Rational(rhs) => {
@@ -903,9 +916,10 @@ impl Rem for &Number {
     /// The spec only defines remainder for integers but this operation is also used by other
     /// functions that deal with numbers of all types internally.
     fn rem(self, rhs: Self) -> Self::Output {
-        match self {
+        let (lhs, rhs) = (&self.integer_as_fixnum(), &rhs.integer_as_fixnum());
+        match lhs {
             Number::Fixnum(lhs) => match rhs {
-                Number::Fixnum(rhs) => Some((lhs % rhs).into()),
+                Number::Fixnum(rhs) => Some(lhs.wrapping_rem(*rhs).into()),
                 Number::BigInt(rhs) => Some((BigInt::from(*lhs) % &**rhs).into()),
                 Number::Float(rhs) => Some((*lhs as f64 % rhs).into()),
                 Number::Rational(rhs) => {
